@@ -23,11 +23,12 @@ EXTENDS Integers, Sequences, FiniteSets
 
 CONSTANTS NAdd(_, _), NSub(_, _), NLeq(_, _), NZero,
           Contracts,        \* addresses of the embedded contracts
-          TokenContract     \* the only account allowed to change a supply
+          TokenContract,    \* the only account allowed to change a supply
+          StrictFifo        \* TRUE: contracts take the head of their inbox (FALSE only in a negative control)
 
 VARIABLES bal,      \* <<account, token>> -> amount (absent = zero)
           supply,   \* token -> [total, max]
-          sends,    \* send id -> [from, to, tok, amt, st]   st \in {"pooled","confirmed","received"}
+          sends,    \* unreceived sends: id -> [from, to, tok, amt, st]   st \in {"pooled","confirmed"}
           inbox,    \* contract -> sequence of send ids in confirmation order
           cursor,   \* contract -> number of inbox entries already received
           nrecv     \* send id -> number of receive blocks accepted for it (ghost, AtMostOnce)
@@ -36,6 +37,11 @@ lvars == <<bal, supply, sends, inbox, cursor, nrecv>>
 
 Get(f, k, d) == IF k \in DOMAIN f THEN f[k] ELSE d
 Put(f, k, v) == [x \in (DOMAIN f) \cup {k} |-> IF x = k THEN v ELSE f[x]]
+
+\* A received send leaves `sends` (retired objects are dropped from the state); the ghost counter of a
+\* send is kept only while it says something: more than one receive, or a receive that left the send in place.
+Drop(f, k) == [x \in (DOMAIN f) \ {k} |-> f[x]]
+Count(n, sid) == IF Get(n, sid, 0) = 0 THEN n ELSE Put(n, sid, n[sid] + 1)
 
 Bal(a, t)  == Get(bal, <<a, t>>, NZero)
 Credit(b, a, t, x) == Put(b, <<a, t>>, NAdd(Get(b, <<a, t>>, NZero), x))
@@ -69,8 +75,8 @@ Recv(a, sid) ==
   /\ a \notin Contracts
   /\ sid \in DOMAIN sends /\ sends[sid].st = "confirmed" /\ sends[sid].to = a
   /\ bal' = Credit(bal, a, sends[sid].tok, sends[sid].amt)
-  /\ sends' = [sends EXCEPT ![sid].st = "received"]
-  /\ nrecv' = Put(nrecv, sid, Get(nrecv, sid, 0) + 1)
+  /\ sends' = Drop(sends, sid)
+  /\ nrecv' = Count(nrecv, sid)
   /\ UNCHANGED <<supply, inbox, cursor>>
 
 \* What the code does below verifier.ReceiverMismatchEnforcementHeight (DESIGN F12): the addressee
@@ -81,7 +87,7 @@ LegacyMismatchRecv(a, sid) ==
   /\ a \notin Contracts
   /\ sid \in DOMAIN sends /\ sends[sid].st # "pooled" /\ sends[sid].to # a
   /\ bal' = Credit(bal, a, sends[sid].tok, sends[sid].amt)
-  /\ nrecv' = Put(nrecv, sid, Get(nrecv, sid, 0) + 1)
+  /\ nrecv' = Put(nrecv, sid, Get(nrecv, sid, 0) + 1)     \* the send stays receivable: counted
   /\ UNCHANGED <<supply, sends, inbox, cursor>>
 
 RefundOf(sid, rid) ==
@@ -116,11 +122,11 @@ ApplySupply(b, sup, c, todo) ==
 CRecv(c, sid, status, desc, supplyChanges) ==
   /\ c \in Contracts
   /\ sid \in DOMAIN sends /\ sends[sid].st = "confirmed" /\ sends[sid].to = c
-  /\ Cursor(c) < Len(Inbox(c)) /\ Inbox(c)[Cursor(c) + 1] = sid          \* strict FIFO
+  /\ Cursor(c) < Len(Inbox(c)) /\ (StrictFifo => Inbox(c)[Cursor(c) + 1] = sid)   \* strict FIFO
   /\ (supplyChanges # <<>> => c = TokenContract /\ status = "ok")         \* SupplyChangesOnlyBy
   /\ LET b1 == Credit(bal, c, sends[sid].tok, sends[sid].amt)
          r1 == ApplySupply(b1, supply, c, supplyChanges)
-         s1 == [sends EXCEPT ![sid].st = "received"]
+         s1 == Drop(sends, sid)
          r2 == ApplyDesc(r1.b, s1, c, desc)
      IN /\ r1.ok /\ r2.ok
         /\ (status = "fail" =>
@@ -130,7 +136,7 @@ CRecv(c, sid, status, desc, supplyChanges) ==
                                          /\ desc[i].amt = sends[sid].amt)
         /\ bal' = r2.b /\ sends' = r2.s /\ supply' = r1.sup
   /\ cursor' = Put(cursor, c, Cursor(c) + 1)
-  /\ nrecv' = Put(nrecv, sid, Get(nrecv, sid, 0) + 1)
+  /\ nrecv' = Count(nrecv, sid)
   /\ UNCHANGED inbox
 
 \* A momentum confirms the listed send blocks (content order); receive blocks need no bookkeeping here.
@@ -159,7 +165,7 @@ SetToSeq(S) == IF S = {} THEN <<>> ELSE LET x == CHOOSE y \in S : TRUE IN <<x>> 
 
 SumBal(t) == LET ks == SetToSeq({k \in DOMAIN bal : k[2] = t})
              IN SumSeq([i \in 1..Len(ks) |-> bal[ks[i]]])
-SumInflight(t) == LET ks == SetToSeq({i \in DOMAIN sends : sends[i].tok = t /\ sends[i].st # "received"})
+SumInflight(t) == LET ks == SetToSeq({i \in DOMAIN sends : sends[i].tok = t})
                   IN SumSeq([i \in 1..Len(ks) |-> sends[ks[i]].amt])
 
 TokensSeen == DOMAIN supply \cup {k[2] : k \in DOMAIN bal} \cup {sends[i].tok : i \in DOMAIN sends}
@@ -173,5 +179,5 @@ Conservation == \A t \in TokensSeen :
 AtMostOnce == \A i \in DOMAIN nrecv : nrecv[i] <= 1
 \* ... and contracts consume their inbox strictly in order (cursor never runs ahead)
 FIFO == \A c \in DOMAIN cursor : /\ cursor[c] <= Len(Inbox(c))
-                                 /\ \A i \in 1..cursor[c] : sends[Inbox(c)[i]].st = "received"
+                                 /\ \A i \in 1..cursor[c] : Inbox(c)[i] \notin DOMAIN sends
 =============================================================================
